@@ -15,11 +15,11 @@ SCOPE = (' Scope of the proof: the context-free policies, the linear policies, R
          'of them, and the MAB facade constructed over those (for LSHNearest two contracts are assumed, not proved: '
          '_fit_operation and _parallel_predict with an LSH receiver; they are listed in the evidence). clusters.py and '
          'treebandit.py are not under contract (DESIGN.md 12.6): for them, and for NumPy dtype / memory-layout effects everywhere, the check '
-         'runs the bounded runtime leg (rt/: the property\'s executable form on the real API over enumerated small scopes, '
+         'runs the bounded runtime leg (rt/: the property\'s executable form on the real API over enumerated small scopes and seeded random call plans, '
          'reported under "bounded" in the evidence and never counted as proved; a failing input found there is reported '
          'as a violation with the input).')
 BOUNDED_TECH = ('bounded stand-in (no contract within reach of the prover): executable form of the property - independent '
-                'reference semantics and differential checks - run against the real public API over enumerated small scopes; '
+                'reference semantics and differential checks - run against the real public API over enumerated small scopes and seeded random call plans; '
                 'labelled bounded, not a proof')
 
 CLAIMS = {
